@@ -143,6 +143,8 @@ def _rt_worker(cases):
                 # E2 carries an enum value deprecated with an EMPTY reason (a C15 case): SDL has no spelling that distinguishes it
                 # from the default reason, so it is outside the round-trip domain
                 a = dict(a, types=[t for t in a["types"] if t["name"] != "E2"])
+                # (likewise the field B.old, deprecated with an empty reason: realised without deprecation here)
+                a = dict(a, types=[dict(t, fields=[dict(f, dep="") if f.get("dep") == "EMPTY" else f for f in t["fields"]]) if t.get("fields") else t for t in a["types"]])
                 schema = schemagamma.realize(a)
             else:
                 schema = opsreplay.realize(a, opsreplay.Ids())
